@@ -138,9 +138,14 @@ func expect(c Case) Expect {
 
 // ---- comparison ------------------------------------------------------------------------------
 
+// Violation is one disagreement. Group names the clause, the transport and what was expected and
+// seen; Facets are the configuration classes it occurred under. After the run all violations of a
+// group are merged and the final signature is Group plus, per facet, the sorted set of values seen,
+// so one defect gives one signature and any widening of a known defect gives a new one.
 type Violation struct {
-	Sig  string
-	What string
+	Group  string
+	Facets [][2]string
+	What   string
 }
 
 func isJSONMediaType(ct string) bool {
@@ -155,6 +160,21 @@ type gqlBody struct {
 	dataNull  bool
 	data      string
 	numErrors int
+}
+
+// bodyCache memoises parseBody (a pure function); the same body recurs across configurations.
+type bodyCache map[string]gqlBody
+
+func (bc bodyCache) parse(b string) gqlBody {
+	if g, ok := bc[b]; ok {
+		return g
+	}
+	if len(bc) > 4096 {
+		clear(bc)
+	}
+	g := parseBody(b)
+	bc[b] = g
+	return g
 }
 
 func parseBody(b string) gqlBody {
@@ -216,49 +236,58 @@ func opKinds(d DocSpec) string {
 	return strings.Join(k, ",")
 }
 
-// check compares one observation against the reference. Signatures name the clause, the transport
-// and the configuration class, never the individual document.
-func check(c Case, e Expect, o Obs) []Violation {
+// check compares one observation against the reference. Groups and facets name the clause, the
+// transport and the configuration class, never the individual document.
+func check(c Case, e Expect, o Obs, bc bodyCache) []Violation {
 	car := carrierByName(c.Carrier)
 	var v []Violation
-	add := func(sig, what string, a ...any) { v = append(v, Violation{sig, fmt.Sprintf(what, a...)}) }
+	add := func(group string, facets [][2]string, what string, a ...any) {
+		v = append(v, Violation{group, facets, fmt.Sprintf(what, a...)})
+	}
 	tr := car.Transport
 
 	// clause 5: no resolver has run for any request answered non-2xx (every method)
 	if (o.Status < 200 || o.Status > 299) && len(o.Resolvers) > 0 {
-		add(fmt.Sprintf("resolver-ran-non2xx|carrier=%s|status=%d", car.Name, o.Status),
+		add(fmt.Sprintf("resolver-ran-non2xx|carrier=%s|status=%d", car.Name, o.Status), nil,
 			"status %d but resolvers ran: %v", o.Status, o.Resolvers)
 	}
 
 	// clauses 1 and 2: which resolvers ran
+	wrongOp := false
 	if !sameStrings(o.Resolvers, e.Resolvers) {
 		switch e.Outcome {
 		case "execute":
-			add(fmt.Sprintf("wrong-operation|carrier=%s|selected=%s@%d/%d|got=%s", car.Name,
-				c.Doc.Ops[e.Selected].Kind, e.Selected, len(c.Doc.Ops), strings.Join(o.Resolvers, "+")),
+			// the consequences (status, data) are not reported a second time
+			wrongOp = true
+			got := kindsOf(o.Resolvers)
+			if got == "" {
+				got = "nothing"
+			}
+			add(fmt.Sprintf("wrong-operation|carrier=%s|ran=%s", car.Name, got),
+				[][2]string{{"selected", fmt.Sprintf("%s@%d/%d", c.Doc.Ops[e.Selected].Kind, e.Selected, len(c.Doc.Ops))}},
 				"request names operation %d of %q: expected resolver log %v, got %v (status %d, body %s)",
 				e.Selected, c.Doc.Text(), e.Resolvers, o.Resolvers, o.Status, clip(o.Body))
 		default:
-			add(fmt.Sprintf("resolver-ran|carrier=%s|outcome=%s|got=%s", car.Name, e.Outcome, kindsOf(o.Resolvers)),
+			add(fmt.Sprintf("resolver-ran|carrier=%s|outcome=%s|ran=%s", car.Name, e.Outcome, kindsOf(o.Resolvers)), nil,
 				"%s: no resolver may run, got %v (document %q, operationName %v)", e.Outcome, o.Resolvers, c.Doc.Text(), c.OpName)
 		}
 	}
 
 	// clause 3: body and Content-Type
 	if len(o.Body) > 0 {
-		g := parseBody(o.Body)
+		g := bc.parse(o.Body)
 		switch {
 		case !g.ok:
-			add(fmt.Sprintf("body|transport=%s|outcome=%s|problem=%s", tr, e.Outcome, g.problem),
+			add(fmt.Sprintf("body|transport=%s|problem=%s", tr, g.problem), [][2]string{{"outcome", e.Outcome}},
 				"body is not a GraphQL response (%s): %s", g.problem, clip(o.Body))
 		case e.Outcome == "execute":
-			if g.numErrors != 0 || g.data != e.Data {
-				add(fmt.Sprintf("body|transport=%s|outcome=execute|problem=data", tr),
+			if !wrongOp && (g.numErrors != 0 || g.data != e.Data) {
+				add(fmt.Sprintf("body|transport=%s|problem=data", tr), [][2]string{{"outcome", e.Outcome}},
 					"expected data %s and no errors, got %s", e.Data, clip(o.Body))
 			}
 		case e.Outcome != "no-run" || tr == "none":
 			if g.numErrors == 0 || (g.hasData && !g.dataNull) {
-				add(fmt.Sprintf("body|transport=%s|outcome=%s|problem=refusal-without-errors", tr, e.Outcome),
+				add(fmt.Sprintf("body|transport=%s|problem=refusal-without-errors", tr), [][2]string{{"outcome", e.Outcome}},
 					"refused request must carry errors and no data, got %s", clip(o.Body))
 			}
 		}
@@ -266,37 +295,38 @@ func check(c Case, e Expect, o Obs) []Violation {
 		if len(o.ContentType) > 0 {
 			ct = o.ContentType[0]
 		}
+		rh := c.RH
+		if tr == "none" {
+			rh = "-" // no transport, no configured headers
+		}
 		switch {
 		case len(o.ContentType) > 1:
-			add(fmt.Sprintf("ct-multiple|transport=%s|rh=%s", tr, c.RH), "several Content-Type values: %v", o.ContentType)
+			add(fmt.Sprintf("ct-multiple|transport=%s", tr), [][2]string{{"rh", rh}}, "several Content-Type values: %v", o.ContentType)
 		case !isJSONMediaType(ct):
-			rh := c.RH
-			if tr == "none" {
-				rh = "-"
-			}
-			add(fmt.Sprintf("ct-missing|transport=%s|rh=%s|outcome=%s", tr, rh, e.Outcome),
-				"JSON body sent with Content-Type %q (none set by gqlgen; a net/http server would sniff text/plain); expected %q", ct, e.ContentType)
+			add(fmt.Sprintf("ct-missing|transport=%s", tr), [][2]string{{"rh", rh}, {"outcome", e.Outcome}},
+				"JSON body sent with Content-Type %q (gqlgen set none; the recorder / a net/http server sniffs text/plain); expected %q", ct, e.ContentType)
 		case e.ContentType != "" && ct != e.ContentType:
-			add(fmt.Sprintf("ct-mismatch|transport=%s|rh=%s|accept=%s|want=%s|got=%s", tr, c.RH, c.Accept, e.ContentType, ct),
+			add(fmt.Sprintf("ct-mismatch|transport=%s|rh=%s|accept=%s|want=%s|got=%s", tr, c.RH, c.Accept, e.ContentType, ct), nil,
 				"Content-Type %q, reference negotiation gives %q (Accept %q, ResponseHeaders %s)", ct, e.ContentType, c.Accept, c.RH)
 		}
 	} else if e.Outcome != "no-run" {
-		add(fmt.Sprintf("body|transport=%s|outcome=%s|problem=empty", tr, e.Outcome), "empty response body")
+		add(fmt.Sprintf("body|transport=%s|problem=empty", tr), [][2]string{{"outcome", e.Outcome}}, "empty response body")
 	}
 
 	// clause 4: status
 	switch {
+	case wrongOp:
 	case e.Status > 0 && o.Status != e.Status:
-		add(fmt.Sprintf("status|transport=%s|rh=%s|outcome=%s|class=%s|mediatype=%s|want=%d|got=%d", tr, c.RH, e.Outcome,
-			c.Doc.Class(), essence(e.ContentType), e.Status, o.Status),
+		add(fmt.Sprintf("status|transport=%s|outcome=%s|mediatype=%s|want=%d|got=%d", tr, e.Outcome, essence(e.ContentType), e.Status, o.Status),
+			[][2]string{{"rh", c.RH}, {"class", c.Doc.Class()}},
 			"%s (%s document): expected status %d for media type %q, got %d", e.Outcome, c.Doc.Class(), e.Status, e.ContentType, o.Status)
 	case e.Status == -4 && (o.Status < 400 || o.Status > 499):
-		add(fmt.Sprintf("status|transport=%s|outcome=%s|want=4xx|got=%d", tr, e.Outcome, o.Status),
+		add(fmt.Sprintf("status|transport=%s|outcome=%s|want=4xx|got=%d", tr, e.Outcome, o.Status), nil,
 			"GET selecting a %s must be refused with a client error, got %d", c.Doc.Ops[e.Selected].Kind, o.Status)
 	}
 	// a request whose execution started is always answered 200 (independent of the expectation)
 	if o.ExecStarted && o.Status != 200 {
-		add(fmt.Sprintf("status-after-exec|carrier=%s|got=%d", car.Name, o.Status), "execution started but status is %d", o.Status)
+		add(fmt.Sprintf("status-after-exec|carrier=%s|got=%d", car.Name, o.Status), nil, "execution started but status is %d", o.Status)
 	}
 	return v
 }
